@@ -19,6 +19,11 @@ use hutil::{Args, Log, Rng, Stats};
 enum Op {
     Case(u64),
     Spawn(usize, Option<usize>, Option<String>),
+    SpawnInstant(usize, Option<usize>, Option<String>),
+    Link(usize, usize),
+    Unlink(usize, usize),
+    /// feature `monitors`: `m.monitor(a)` / `m.unmonitor(a)` (`Monitor(m, a, on)`)
+    Monitor(usize, usize, bool),
     PollSpawn(usize),
     DropSpawn(usize),
     Poll(usize),
@@ -44,6 +49,16 @@ impl std::fmt::Display for Op {
                 sup.map(|p| p.to_string()).unwrap_or_else(|| "-".into()),
                 name.clone().unwrap_or_else(|| "-".into())
             ),
+            Op::SpawnInstant(a, sup, name) => write!(
+                f,
+                "spawninstant {a} sup={} name={}",
+                sup.map(|p| p.to_string()).unwrap_or_else(|| "-".into()),
+                name.clone().unwrap_or_else(|| "-".into())
+            ),
+            Op::Link(a, p) => write!(f, "link {a} {p}"),
+            Op::Unlink(a, p) => write!(f, "unlink {a} {p}"),
+            Op::Monitor(m, a, true) => write!(f, "monitor {m} {a}"),
+            Op::Monitor(m, a, false) => write!(f, "unmonitor {m} {a}"),
             Op::PollSpawn(a) => write!(f, "pollspawn {a}"),
             Op::DropSpawn(a) => write!(f, "dropspawn {a}"),
             Op::Poll(a) => write!(f, "poll {a}"),
@@ -80,6 +95,19 @@ fn parse_op(line: &str) -> Option<Op> {
                 if nm == "-" { None } else { Some(nm.to_string()) },
             )
         }
+        ["spawninstant", a, sup, name] | ["spawninstant", a, sup, name, _] => {
+            let s = sup.strip_prefix("sup=")?;
+            let nm = name.strip_prefix("name=")?;
+            Op::SpawnInstant(
+                n(a)?,
+                if s == "-" { None } else { Some(n(s)?) },
+                if nm == "-" { None } else { Some(nm.to_string()) },
+            )
+        }
+        ["link", a, p] => Op::Link(n(a)?, n(p)?),
+        ["unlink", a, p] => Op::Unlink(n(a)?, n(p)?),
+        ["monitor", m, a] => Op::Monitor(n(m)?, n(a)?, true),
+        ["unmonitor", m, a] => Op::Monitor(n(m)?, n(a)?, false),
         ["wait", w, a] => Op::Wait(w.parse().ok()?, n(a)?),
         ["pollwait", w] => Op::PollWait(w.parse().ok()?),
         ["call", k, a] => Op::Call(k.parse().ok()?, n(a)?),
@@ -107,6 +135,15 @@ struct Run {
     pending_calls: Vec<u32>,
     pending_waits: Vec<u32>,
     held: std::collections::HashMap<usize, Vec<u32>>,
+    /// a segment with `spawnchild:c` was supplied to this actor and has not executed yet: slot `c` is
+    /// reserved, nobody else may spawn meanwhile
+    reserved: Option<(usize, usize)>,
+    /// feature `monitors`: (monitor, monitored) pairs registered by the harness; actors whose
+    /// `post_start` returned ok
+    mon_pairs: Vec<(usize, usize)>,
+    past_start: std::collections::HashSet<usize>,
+    /// replaying corpus files: cycle-closing links are executed as recorded
+    allow_cycles: bool,
 }
 
 impl Run {
@@ -119,7 +156,24 @@ impl Run {
         let n = self.w.actors.len();
         match op {
             Op::Case(_) => true,
-            Op::Spawn(a, sup, _) => *a == n && sup.is_none_or(|p| p < n && self.w.me(p).is_some()),
+            Op::Spawn(a, sup, _) | Op::SpawnInstant(a, sup, _) => {
+                self.reserved.is_none() && *a == n && sup.is_none_or(|p| p < n && self.w.me(p).is_some())
+            }
+            Op::Resume(a, seg) if seg.fx.iter().any(|x| matches!(x, Fx::SpawnChild(_))) => {
+                let cs: Vec<usize> = seg.fx.iter().filter_map(|x| if let Fx::SpawnChild(c) = x { Some(*c) } else { None }).collect();
+                *a < n && self.reserved.is_none() && cs.len() == 1 && cs[0] == n && self.w.me(*a).is_some()
+                    && self.w.actors[*a].open.is_some() && !self.w.actors[*a].seg_pending
+            }
+            Op::Unlink(a, p) => *a < n && *p < n && a != p && self.w.me(*p).is_some(),
+            Op::Monitor(m, a, _) => {
+                self.w.monitors_enabled() && *a < n && *m < n && a != m && self.w.me(*m).is_some() && self.w.me(*a).is_some()
+            }
+            // a link that would close a supervision cycle is never generated (known finding F15: the code
+            // accepts it and then loses the terminal event of an actor exiting on the cycle); the corpus
+            // witness corpus/C04/e-lts-link-cycle.ops (replayed with `allow_cycles`) does close one
+            Op::Link(a, p) => {
+                *a < n && *p < n && self.w.me(*p).is_some() && (self.allow_cycles || (a != p && !self.w.would_cycle(*a, *p)))
+            }
             Op::Wait(_, a) | Op::Call(_, a) => *a < n,
             Op::PollWait(_) | Op::PollCall(_) => true,
             Op::PollSpawn(a) | Op::DropSpawn(a) | Op::Poll(a) | Op::Abort(a) | Op::Resume(a, _) => *a < n,
@@ -137,6 +191,10 @@ impl Run {
             Op::Case(id) => {
                 self.w.cleanup().await;
                 self.w.eng.reset();
+                self.w.sync_shared();
+                self.reserved = None;
+                self.mon_pairs.clear();
+                self.past_start.clear();
                 *self.w.sh.tag.lock().unwrap() = format!("c{id}-");
                 self.ctr = 0;
                 self.pending_calls.clear();
@@ -150,6 +208,32 @@ impl Run {
                     self.stats.bump("op.spawn-named");
                 }
                 self.w.spawn_any(*sup, name.as_deref()).await;
+            }
+            Op::SpawnInstant(_, sup, name) => {
+                self.stats.bump(if sup.is_some() { "op.spawninstant-linked" } else { "op.spawninstant" });
+                if name.is_some() {
+                    self.stats.bump("op.spawn-named");
+                }
+                self.w.spawn_instant(*sup, name.as_deref());
+            }
+            Op::Link(a, p) => {
+                if self.w.would_cycle(*a, *p) {
+                    self.stats.bump("op.link.would-close-a-cycle");
+                }
+                self.stats.bump(&format!("op.link@{}", open_of(&self.w, *a)));
+                self.w.link(*a, *p);
+            }
+            Op::Unlink(a, p) => {
+                self.stats.bump(&format!("op.unlink@{}", open_of(&self.w, *a)));
+                self.w.unlink(*a, *p);
+            }
+            Op::Monitor(m, a, on) => {
+                self.stats.bump(&format!("op.{}@{}", if *on { "monitor" } else { "unmonitor" }, open_of(&self.w, *a)));
+                self.w.monitor(*m, *a, *on);
+                self.mon_pairs.retain(|p| *p != (*m, *a));
+                if *on {
+                    self.mon_pairs.push((*m, *a));
+                }
             }
             Op::Wait(w, a) => {
                 self.stats.bump("op.wait");
@@ -168,10 +252,22 @@ impl Run {
                 self.w.pollcall(*k);
             }
             Op::PollSpawn(a) => {
+                if self.w.actors[*a].unstarted_instant() {
+                    let me = self.w.me(*a);
+                    let (stop_open, sig_open) = me.map(|m| m.get_cell().verif_ports_open()).unwrap_or((true, true));
+                    self.stats.bump(&format!(
+                        "op.pollspawn.instant-first{}{}",
+                        if sig_open { "" } else { "+kill-pending" },
+                        if stop_open { "" } else { "+stop-pending" }
+                    ));
+                }
                 self.stats.bump("op.pollspawn");
                 self.w.pollspawn_any(*a).await;
             }
             Op::DropSpawn(a) => {
+                if self.w.actors[*a].inst_task.is_some() {
+                    self.stats.bump("op.dropspawn.instant");
+                }
                 self.stats.bump(&format!("op.dropspawn@{}", open_of(&self.w, *a)));
                 self.w.dropspawn_any(*a).await;
             }
@@ -199,7 +295,11 @@ impl Run {
                         Fx::Reply(..) => "fx.reply",
                         Fx::Forget(_) => "fx.forget",
                         Fx::Join(_) => "fx.join",
+                        Fx::SpawnChild(_) => "fx.spawnchild",
                     });
+                    if let Fx::SpawnChild(c) = x {
+                        self.reserved = Some((*a, *c));
+                    }
                 }
                 self.w.resume(*a, seg.clone());
             }
@@ -221,6 +321,12 @@ impl Run {
             }
         }
         let obs = self.w.collect();
+        // the reservation ends when the child was born or the segment can no longer execute
+        if let Some((a, c)) = self.reserved {
+            if self.w.actors.len() > c || !self.w.actors[a].seg_pending {
+                self.reserved = None;
+            }
+        }
         for part in obs.split(" | ").next().unwrap_or("").split("; ") {
             let w: Vec<&str> = part.split(' ').collect();
             match w.as_slice() {
@@ -229,8 +335,9 @@ impl Run {
                     self.stats.bump(&format!("obs.emit.Terminated.{st}.{class}"))
                 }
                 ["emit", _, kind, ..] => self.stats.bump(&format!("obs.emit.{kind}")),
+                ["monemit", _, kind, ..] => self.stats.bump(&format!("obs.monemit.{kind}")),
                 ["cancelled", _, cb] => self.stats.bump(&format!("obs.cancelled.{cb}")),
-                ["ret", r] if matches!(op, Op::Spawn(..) | Op::PollSpawn(_)) => {
+                ["ret", r] if matches!(op, Op::Spawn(..) | Op::PollSpawn(_) | Op::SpawnInstant(..)) => {
                     let r = if r.starts_with("Err(startup:") { "Err(startup)" } else { r };
                     self.stats.bump(&format!("obs.spawn.{r}"))
                 }
@@ -275,10 +382,43 @@ impl Run {
             }
         }
         let line = match &op {
-            Op::Spawn(..) if self.w.local.is_some() => format!("{op} kind=local"),
+            Op::Spawn(..) | Op::SpawnInstant(..) if self.w.local.is_some() => format!("{op} kind=local"),
             _ => op.to_string(),
         };
+        for part in obs.split(" | ").next().unwrap_or("").split("; ") {
+            let w: Vec<&str> = part.split(' ').collect();
+            if let ["exit", a, "post_start", "ok"] = w.as_slice() {
+                if let Ok(a) = a.parse::<usize>() {
+                    self.past_start.insert(a);
+                }
+            }
+        }
         self.log.rec(line, obs);
+        // Bound of the tie (feature `monitors`): the code drops a dead monitor inside `notify_supervisor`,
+        // the model after the step — they differ only when one poll makes two fan-outs (`ActorStarted` and
+        // the terminal event) to a monitor that is already dead. So a monitor that dies before the monitored
+        // actor has reported `ActorStarted` is un-monitored at once (as recorded ops).
+        if self.w.monitors_enabled() && !matches!(op, Op::Case(_)) {
+            let dead: Vec<(usize, usize)> = self
+                .mon_pairs
+                .iter()
+                .copied()
+                .filter(|(m, a)| {
+                    *m < self.w.actors.len()
+                        && *a < self.w.actors.len()
+                        && !self.alive(*m)
+                        && self.alive(*a)
+                        && !self.past_start.contains(a)
+                })
+                .collect();
+            for (m, a) in dead {
+                self.stats.bump("op.unmonitor.auto-dead-monitor");
+                self.w.monitor(m, a, false);
+                self.mon_pairs.retain(|p| *p != (m, a));
+                let obs = self.w.collect();
+                self.log.rec(Op::Monitor(m, a, false).to_string(), obs);
+            }
+        }
     }
 
     fn alive(&self, a: usize) -> bool {
@@ -300,7 +440,7 @@ impl Run {
                     moved = true;
                 }
                 if self.w.actors[a].spawn_alive() {
-                    if self.w.actors[a].seg_pending {
+                    if self.w.actors[a].seg_pending || self.w.actors[a].unstarted_instant() {
                         self.exec(Op::PollSpawn(a)).await;
                         moved = true;
                     }
@@ -347,6 +487,9 @@ impl Run {
             let m = self.fresh();
             fx.push(Fx::SendSelf(m));
         }
+        if self.reserved.is_none() && self.w.actors.len() < 6 && self.w.me(a).is_some() && rng.chance(7, 100) {
+            fx.push(Fx::SpawnChild(self.w.actors.len()));
+        }
         if rng.chance(2 * wild, 100) {
             fx.push(Fx::StopSelf(if rng.chance(1, 2) { Some(format!("r{}", self.fresh())) } else { None }));
         }
@@ -386,7 +529,11 @@ impl Run {
                 let with_cell: Vec<usize> = (0..n).filter(|&p| self.w.me(p).is_some()).collect();
                 let sup = if !with_cell.is_empty() && rng.chance(8, 10) { Some(*rng.pick(&with_cell)) } else { None };
                 let name = if rng.chance(3, 10) { Some(format!("n{}", rng.range(1, 2))) } else { None };
-                cand.push((if n == 0 { 1000 } else { 40 }, Op::Spawn(n, sup, name)));
+                if rng.chance(3, 10) {
+                    cand.push((if n == 0 { 1000 } else { 40 }, Op::SpawnInstant(n, sup, name)));
+                } else {
+                    cand.push((if n == 0 { 1000 } else { 40 }, Op::Spawn(n, sup, name)));
+                }
             }
             for a in 0..n {
                 let (sa, tl, open, pend, runnable) = {
@@ -395,7 +542,8 @@ impl Run {
                 };
                 let live = sa || tl;
                 if sa {
-                    cand.push((if pend { 120 } else { 6 }, Op::PollSpawn(a)));
+                    let unst = self.w.actors[a].unstarted_instant();
+                    cand.push((if pend { 120 } else if unst { 25 } else { 6 }, Op::PollSpawn(a)));
                     cand.push((3 * wild, Op::DropSpawn(a)));
                 }
                 if tl {
@@ -415,6 +563,19 @@ impl Run {
                     cand.push(((wild + 1) * k / 2, Op::Stop(a, r)));
                     cand.push(((wild + 1) * k / 2, Op::Drain(a)));
                     cand.push((k, Op::Call(100 + self.fresh(), a)));
+                    let others: Vec<usize> = (0..n).filter(|&p| p != a && self.w.me(p).is_some()).collect();
+                    if !others.is_empty() {
+                        let p = *rng.pick(&others);
+                        cand.push(((wild + 1) * k / 3, Op::Link(a, p)));
+                        let q = *rng.pick(&others);
+                        cand.push(((wild + 1) * k / 4, Op::Unlink(a, q)));
+                        if self.w.monitors_enabled() {
+                            let m = *rng.pick(&others);
+                            cand.push((3 * k / 2, Op::Monitor(m, a, true)));
+                            let m2 = *rng.pick(&others);
+                            cand.push((k / 3, Op::Monitor(m2, a, false)));
+                        }
+                    }
                     cand.push((k / 2, Op::Wait(100 + self.fresh(), a)));
                 }
             }
@@ -461,7 +622,7 @@ impl Run {
                 x -= wt;
             }
             let tgt = match &chosen {
-                Op::Send(a, _) | Op::Stop(a, _) | Op::Kill(a) | Op::Drain(a) => Some(*a),
+                Op::Send(a, _) | Op::Stop(a, _) | Op::Kill(a) | Op::Drain(a) | Op::Link(a, _) | Op::Unlink(a, _) => Some(*a),
                 _ => None,
             };
             if tgt.is_some_and(|a| !self.alive(a)) {
@@ -648,6 +809,320 @@ impl Run {
     }
 }
 
+impl Run {
+    /// Instant-spawn arrival sweep: what reaches the cell while it is still `Unstarted`
+    /// (message, relink, stop, kill, drain: 32 subsets) x linked or not x {first poll, abort} of the
+    /// start task; then the same with the arrivals during `pre_start`.
+    async fn instant_sweep(&mut self, id0: u64) -> u64 {
+        let ok = || Seg { fx: vec![], term: Term::Ok };
+        let mut id = id0;
+        for linked in [false, true] {
+            for during_pre in [false, true] {
+                for fill in 0u32..32 {
+                    for next in ["poll", "drop", "err"] {
+                        self.exec(Op::Case(id)).await;
+                        id += 1;
+                        self.stats.bump("instantsweep.cases");
+                        self.exec(Op::Spawn(0, None, None)).await;
+                        self.exec(Op::Resume(0, ok())).await;
+                        self.exec(Op::PollSpawn(0)).await;
+                        self.exec(Op::Spawn(1, None, None)).await;
+                        self.exec(Op::Resume(1, ok())).await;
+                        self.exec(Op::PollSpawn(1)).await;
+                        self.exec(Op::SpawnInstant(2, if linked { Some(0) } else { None }, None)).await;
+                        if during_pre {
+                            self.exec(Op::PollSpawn(2)).await;
+                        }
+                        if fill & 1 != 0 {
+                            self.exec(Op::Send(2, 200)).await;
+                        }
+                        if fill & 2 != 0 {
+                            self.exec(Op::Link(2, 1)).await;
+                        }
+                        if fill & 16 != 0 {
+                            self.exec(Op::Drain(2)).await;
+                        }
+                        if fill & 4 != 0 {
+                            self.exec(Op::Stop(2, Some("r1".into()))).await;
+                        }
+                        if fill & 8 != 0 {
+                            self.exec(Op::Kill(2)).await;
+                        }
+                        match next {
+                            "poll" => self.exec(Op::PollSpawn(2)).await,
+                            "drop" => self.exec(Op::DropSpawn(2)).await,
+                            _ => {
+                                if !during_pre {
+                                    self.exec(Op::PollSpawn(2)).await;
+                                }
+                                self.exec(Op::Resume(2, Seg { fx: vec![], term: Term::Err(7) })).await;
+                                self.exec(Op::PollSpawn(2)).await;
+                            }
+                        }
+                        self.exec(Op::Send(2, 201)).await;
+                        self.finish_case().await;
+                    }
+                }
+            }
+        }
+        id
+    }
+
+    /// Monitor sweep (feature `monitors`): actor 1 (child of 0 or unsupervised) is monitored by a subset of
+    /// {2, 3, its own supervisor 0}, one monitor possibly dead or un-monitored again, and then ends in
+    /// every way: every monitor registered at that instant gets exactly one copy, without state.
+    async fn monitor_sweep(&mut self, id0: u64) -> u64 {
+        let ok = || Seg { fx: vec![], term: Term::Ok };
+        let mut id = id0;
+        for supervised in [true, false] {
+            for mask in 0u32..8 {
+                for variant in ["plain", "dead3", "unmon2", "late"] {
+                    for exit in ["stop", "kill", "err", "abort", "drain", "poststart-panic", "poststop-err"] {
+                        self.exec(Op::Case(id)).await;
+                        id += 1;
+                        self.stats.bump("monitorsweep.cases");
+                        let mut pre: Vec<Op> = vec![
+                            Op::Spawn(0, None, None),
+                            Op::Resume(0, ok()),
+                            Op::PollSpawn(0),
+                            Op::Spawn(1, if supervised { Some(0) } else { None }, None),
+                            Op::Spawn(2, None, None),
+                            Op::Resume(2, ok()),
+                            Op::PollSpawn(2),
+                            Op::Spawn(3, None, None),
+                            Op::Resume(3, ok()),
+                            Op::PollSpawn(3),
+                        ];
+                        if variant != "late" {
+                            if mask & 1 != 0 {
+                                pre.push(Op::Monitor(2, 1, true));
+                            }
+                            if mask & 2 != 0 {
+                                pre.push(Op::Monitor(3, 1, true));
+                            }
+                            if mask & 4 != 0 {
+                                pre.push(Op::Monitor(0, 1, true));
+                            }
+                        }
+                        pre.extend([Op::Resume(1, ok()), Op::PollSpawn(1), Op::Poll(1)]);
+                        if exit != "poststart-panic" {
+                            pre.extend([Op::Resume(1, ok()), Op::Poll(1)]);
+                        }
+                        if variant == "late" {
+                            if mask & 1 != 0 {
+                                pre.push(Op::Monitor(2, 1, true));
+                            }
+                            if mask & 2 != 0 {
+                                pre.push(Op::Monitor(3, 1, true));
+                            }
+                            if mask & 4 != 0 {
+                                pre.push(Op::Monitor(0, 1, true));
+                            }
+                        }
+                        match variant {
+                            "dead3" => pre.extend([Op::Kill(3), Op::Poll(3)]),
+                            "unmon2" => pre.push(Op::Monitor(2, 1, false)),
+                            _ => {}
+                        }
+                        for op in pre {
+                            self.exec(op).await;
+                        }
+                        match exit {
+                            "stop" => {
+                                self.exec(Op::Stop(1, Some("r1".into()))).await;
+                                self.exec(Op::Poll(1)).await;
+                                self.exec(Op::Resume(1, ok())).await;
+                                self.exec(Op::Poll(1)).await;
+                            }
+                            "kill" => {
+                                self.exec(Op::Kill(1)).await;
+                                self.exec(Op::Poll(1)).await;
+                            }
+                            "err" => {
+                                self.exec(Op::Send(1, 100)).await;
+                                self.exec(Op::Poll(1)).await;
+                                self.exec(Op::Resume(1, Seg { fx: vec![], term: Term::Err(7) })).await;
+                                self.exec(Op::Poll(1)).await;
+                            }
+                            "abort" => self.exec(Op::Abort(1)).await,
+                            "drain" => {
+                                self.exec(Op::Drain(1)).await;
+                                self.exec(Op::Poll(1)).await;
+                                self.exec(Op::Resume(1, ok())).await;
+                                self.exec(Op::Poll(1)).await;
+                            }
+                            "poststart-panic" => {
+                                self.exec(Op::Resume(1, Seg { fx: vec![], term: Term::Panic(8) })).await;
+                                self.exec(Op::Poll(1)).await;
+                            }
+                            _ => {
+                                self.exec(Op::Stop(1, None)).await;
+                                self.exec(Op::Poll(1)).await;
+                                self.exec(Op::Resume(1, Seg { fx: vec![], term: Term::Err(9) })).await;
+                                self.exec(Op::Poll(1)).await;
+                            }
+                        }
+                        self.finish_case().await;
+                    }
+                }
+            }
+        }
+        id
+    }
+
+    /// Children spawned from INSIDE a callback (`spawn_linked_instant(.., myself)`): callback x how the
+    /// segment ends x what happens next (the child starts first, the parent finishes first, the parent is
+    /// killed, the child's start is aborted).
+    async fn spawnchild_sweep(&mut self, id0: u64) -> u64 {
+        let ok = || Seg { fx: vec![], term: Term::Ok };
+        let mut id = id0;
+        for phase in ["pre", "post_start", "handle", "post_stop"] {
+            for term in ["ok", "err", "panic", "tick"] {
+                for after in ["childfirst", "parentfirst", "killparent", "dropchild"] {
+                    self.exec(Op::Case(id)).await;
+                    id += 1;
+                    self.stats.bump("spawnchildsweep.cases");
+                    let mut pre: Vec<Op> = vec![
+                        Op::Spawn(0, None, None),
+                        Op::Resume(0, ok()),
+                        Op::PollSpawn(0),
+                        Op::Spawn(1, Some(0), None),
+                    ];
+                    if phase != "pre" {
+                        pre.extend([Op::Resume(1, ok()), Op::PollSpawn(1), Op::Poll(1)]);
+                    }
+                    match phase {
+                        "handle" => pre.extend([Op::Resume(1, ok()), Op::Send(1, 100), Op::Poll(1)]),
+                        "post_stop" => pre.extend([Op::Resume(1, ok()), Op::Poll(1), Op::Stop(1, None), Op::Poll(1)]),
+                        _ => {}
+                    }
+                    for op in pre {
+                        self.exec(op).await;
+                    }
+                    let t = match term {
+                        "ok" => Term::Ok,
+                        "err" => Term::Err(7),
+                        "panic" => Term::Panic(8),
+                        _ => Term::Tick,
+                    };
+                    let pollop = if phase == "pre" { Op::PollSpawn(1) } else { Op::Poll(1) };
+                    self.exec(Op::Resume(1, Seg { fx: vec![Fx::SpawnChild(2)], term: t })).await;
+                    self.exec(pollop.clone()).await;
+                    match after {
+                        "childfirst" => {
+                            self.exec(Op::PollSpawn(2)).await;
+                            self.exec(Op::Resume(2, ok())).await;
+                            self.exec(Op::PollSpawn(2)).await;
+                        }
+                        "parentfirst" => {
+                            if term == "tick" {
+                                self.exec(Op::Resume(1, ok())).await;
+                                self.exec(pollop.clone()).await;
+                            }
+                            self.exec(Op::Poll(1)).await;
+                            self.exec(Op::PollSpawn(2)).await;
+                        }
+                        "killparent" => {
+                            self.exec(Op::Kill(1)).await;
+                            self.exec(pollop.clone()).await;
+                            self.exec(Op::PollSpawn(2)).await;
+                        }
+                        _ => self.exec(Op::DropSpawn(2)).await,
+                    }
+                    self.finish_case().await;
+                }
+            }
+        }
+        id
+    }
+
+    /// Re-link sweep: a supervised actor (child of 0, with its own child 2, another possible
+    /// supervisor 3) is re-linked / unlinked through the public API in every phase, then runs on,
+    /// fails, or is killed: every later event must go to the supervisor of that instant.
+    async fn relink_sweep(&mut self, id0: u64) -> u64 {
+        let ok = || Seg { fx: vec![], term: Term::Ok };
+        let phases = ["pre", "ready", "post_start", "idle", "handle", "post_stop"];
+        let mut id = id0;
+        for (pi, phase) in phases.iter().enumerate() {
+            for variant in 0..5u32 {
+                for next in ["ok", "err", "kill", "stop"] {
+                    self.exec(Op::Case(id)).await;
+                    id += 1;
+                    self.stats.bump("relinksweep.cases");
+                    let mut pre: Vec<Op> = vec![
+                        Op::Spawn(0, None, None),
+                        Op::Resume(0, ok()),
+                        Op::PollSpawn(0),
+                        Op::Spawn(1, Some(0), None),
+                        Op::Spawn(2, Some(1), None),
+                        Op::Resume(2, ok()),
+                        Op::PollSpawn(2),
+                        Op::Poll(2),
+                        Op::Spawn(3, None, None),
+                        Op::Resume(3, ok()),
+                        Op::PollSpawn(3),
+                    ];
+                    if pi >= 1 {
+                        pre.extend([Op::Resume(1, ok()), Op::PollSpawn(1)]);
+                    }
+                    if pi >= 2 {
+                        pre.push(Op::Poll(1));
+                    }
+                    if pi >= 3 {
+                        pre.extend([Op::Resume(1, ok()), Op::Poll(1)]);
+                    }
+                    match *phase {
+                        "handle" => pre.extend([Op::Send(1, 100), Op::Poll(1)]),
+                        "post_stop" => pre.extend([Op::Stop(1, None), Op::Poll(1)]),
+                        _ => {}
+                    }
+                    for op in pre {
+                        self.exec(op).await;
+                    }
+                    match variant {
+                        0 => self.exec(Op::Link(1, 3)).await,
+                        1 => self.exec(Op::Unlink(1, 0)).await,
+                        2 => {
+                            self.exec(Op::Link(1, 3)).await;
+                            self.exec(Op::Link(1, 0)).await;
+                        }
+                        3 => {
+                            self.exec(Op::Unlink(1, 0)).await;
+                            self.exec(Op::Link(1, 3)).await;
+                        }
+                        _ => {
+                            self.exec(Op::Unlink(1, 3)).await;
+                            self.exec(Op::Link(1, 1 + 2)).await;
+                            self.exec(Op::Unlink(1, 3)).await;
+                        }
+                    }
+                    let pollop = if *phase == "pre" { Op::PollSpawn(1) } else { Op::Poll(1) };
+                    let has_open = !matches!(*phase, "ready" | "idle");
+                    match next {
+                        "kill" => {
+                            self.exec(Op::Kill(1)).await;
+                            self.exec(pollop).await;
+                        }
+                        "stop" => {
+                            self.exec(Op::Stop(1, Some("r2".into()))).await;
+                            self.exec(pollop).await;
+                        }
+                        t => {
+                            if has_open {
+                                let term = if t == "ok" { Term::Ok } else { Term::Err(7) };
+                                self.exec(Op::Resume(1, Seg { fx: vec![], term })).await;
+                            }
+                            self.exec(pollop).await;
+                        }
+                    }
+                    self.finish_case().await;
+                }
+            }
+        }
+        id
+    }
+}
+
 fn main() {
     let args = Args::parse();
     let seed = args.u64("seed", 1);
@@ -670,6 +1145,10 @@ fn main() {
             pending_calls: Vec::new(),
             pending_waits: Vec::new(),
             held: Default::default(),
+            reserved: None,
+            mon_pairs: Vec::new(),
+            past_start: Default::default(),
+            allow_cycles: false,
         };
         if local == 2 {
             run.w.use_thread_local_adapter();
@@ -678,6 +1157,7 @@ fn main() {
             run.w.use_thread_local();
         }
         // 1. corpus (minimised past failures, finding witnesses)
+        run.allow_cycles = true;
         for f in corpus.split(',').filter(|f| !f.is_empty()) {
             let txt = std::fs::read_to_string(f).unwrap_or_default();
             for line in txt.lines() {
@@ -692,11 +1172,18 @@ fn main() {
             }
             run.stats.bump("corpus.files");
         }
+        run.allow_cycles = false;
         // 2. exhaustive arrival-point sweep
         let mut id = 1_000_000;
         if do_sweep {
             id = run.sweep(id).await;
             id = run.spawn_sweep(id).await;
+            id = run.instant_sweep(id).await;
+            id = run.relink_sweep(id).await;
+            id = run.spawnchild_sweep(id).await;
+            if run.w.monitors_enabled() {
+                id = run.monitor_sweep(id).await;
+            }
         }
         let _ = id;
         // 3. structured random cases
